@@ -576,3 +576,19 @@ Theorem C13_header_then_rest_src :
 Proof. exact SrcTie3HeaderRest.C13_header_then_rest_src. Qed.
 Print Assumptions C13_header_then_rest_src.
 Check SrcTie3HeaderRest.C13_header_then_rest_src_ex.
+
+(* ---------- work package cfgT: the TRANSLATED ArchiveReader::from_config / ArchiveFailSafeReader::from_config over ANY source stream = ArchiveSrc.archive_open_src / the opening part of ArchiveSrc.failsafe_repair ---------- *)
+From MLA Require Config ConfigProofs SrcTie3Cfg SrcTie3CfgR SrcTie3CfgEx.
+From MLAGen Require Src3f.
+Theorem C13_cfg_reader_from_config_src : ltac:(let t := type of SrcTie3CfgR.reader_from_config_src in exact t).
+Proof. exact SrcTie3CfgR.reader_from_config_src. Qed.
+Print Assumptions C13_cfg_reader_from_config_src.
+Theorem C13_cfg_failsafe_from_config_src : ltac:(let t := type of SrcTie3CfgR.failsafe_from_config_src in exact t).
+Proof. exact SrcTie3CfgR.failsafe_from_config_src. Qed.
+Print Assumptions C13_cfg_failsafe_from_config_src.
+Theorem C13_cfg_failsafe_repair_src : ltac:(let t := type of SrcTie3CfgR.failsafe_repair_src in exact t).
+Proof. exact SrcTie3CfgR.failsafe_repair_src. Qed.
+Print Assumptions C13_cfg_failsafe_repair_src.
+Theorem C13_cfg_failsafe_repair_is_open : ltac:(let t := type of ConfigProofs.failsafe_repair_is_open in exact t).
+Proof. exact ConfigProofs.failsafe_repair_is_open. Qed.
+Print Assumptions C13_cfg_failsafe_repair_is_open.
